@@ -25,7 +25,9 @@ RULE = (
     "{next on a handle, next on the underlying, asend through a handle, close a handle, close iter(handle), "
     "hand a handle to tool T (32 tools/aggregations, six of them failing half-way because their callable "
     "raises) take j items and close T or abandon it, drop a handle "
-    "and collect garbage, borrow the underlying or re-borrow a handle}. Model: one shared synchronous "
+    "and collect garbage, borrow the underlying or re-borrow a handle, call the __anext__ reference that was taken "
+    "when the handle was obtained, close a handle while a fetch through it is parked inside a suspending underlying "
+    "iterator (if that close is refused with RuntimeError the handle stays open, if it returns the handle is closed)}. Model: one shared synchronous "
     "iterator over the same items; tool rules run the stdlib namesake on the model iterator. After every "
     "operation: the underlying was never closed; every item obtained anywhere is exactly next(model) "
     "(identity), a closed handle (or one whose ancestor was closed) yields nothing and does not move the "
@@ -36,6 +38,7 @@ RULE = (
 ASSUMPTIONS = [
     "whether a tool closed the handle it was given is not predicted: afterwards the handle may stop or deliver next(model)",
     "athrow through a handle is a deliberate action on the underlying generator and not generated",
+    "bound asend/athrow references taken BEFORE a handle was closed are not exercised afterwards (the library only promises this for __anext__)",
 ]
 
 
@@ -154,18 +157,24 @@ def histories(draw, tier):
         st.tuples(st.just("drop"), st.integers(0, 5)),
         st.tuples(st.just("borrow"), st.integers(-1, 5)),
         st.tuples(st.just("borrow"), st.just(-1)),
+        # the __anext__ reference taken when the handle was obtained (the hot-loop idiom ``fetch = it.__anext__``)
+        st.tuples(st.just("next-captured"), st.integers(0, 5)),
+        # a second task closes the handle while a fetch through it is suspended in the underlying iterator
+        st.tuples(st.just("close-during-fetch"), st.integers(0, 5)),
     )
     ops = [list(o) for o in draw(st.lists(op, max_size=nops))]
     return {"items": items, "kind": draw(st.sampled_from(["agen", "agen", "aclass", "aclass_noclose", "send",
                                                              "send_only", "send_noclose"])),
-            "mode": draw(st.sampled_from(["hooks", "bare"])), "ops": [["borrow", -1]] + ops}
+            "mode": draw(st.sampled_from(["hooks", "bare"])), "ops": [["borrow", -1]] + ops,
+            "susp": draw(st.integers(0, 1))}
 
 
 class Handle:
-    __slots__ = ("obj", "parent", "state", "dropped")
+    __slots__ = ("obj", "parent", "state", "dropped", "captured")
 
     def __init__(self, obj, parent):
         self.obj = obj
+        self.captured = obj.__anext__
         self.parent = parent
         self.state = "live"  # live | closed | unknown
         self.dropped = False  # we no longer hold it (a child may still keep it alive)
@@ -189,14 +198,15 @@ def check(case):
     ctx = Ctx("a")
     items = mats(case["items"])
     kind = case["kind"]
+    spec = {"susp": case.get("susp", 0)}
     if kind == "send":
-        src = SendSource(ctx, "u", items, {})
+        src = SendSource(ctx, "u", items, spec)
     elif kind == "send_only":
-        src = SendOnlySource(ctx, "u", items, {})
+        src = SendOnlySource(ctx, "u", items, spec)
     elif kind == "send_noclose":
-        src = SendNoCloseSource(ctx, "u", items, {})
+        src = SendNoCloseSource(ctx, "u", items, spec)
     else:
-        src = make_source(ctx, "u", items, {"fl": kind}, "a")
+        src = make_source(ctx, "u", items, dict(spec, fl=kind), "a")
     underlying = src.obj
     model = iter(list(items))
     handles = []
@@ -214,12 +224,16 @@ def check(case):
             return src.close_calls > 0 or (underlying.ag_frame is None and not src.exhausted)
         return src.close_calls > 0 or bool(getattr(src, "closed", False))
 
-    async def pull(h, via):
+    async def pull(h, via, resume=None, state=None):
         """advance handle h via __anext__ or asend; compare with the model"""
-        state = lineage_state(h)
+        state = state or lineage_state(h)
         try:
             if via == "asend":
                 value = await h.obj.asend(None)
+            elif via == "captured":
+                value = await h.captured()
+            elif via == "resume":
+                value = await resume  # a fetch that was started (and suspended) earlier
             else:
                 value = await h.obj.__anext__()
         except StopAsyncIteration:
@@ -276,6 +290,24 @@ def check(case):
                     continue
                 if name == "next":
                     await pull(h, "anext")
+                elif name == "next-captured":
+                    await pull(h, "captured")
+                elif name == "close-during-fetch":
+                    state = lineage_state(h)
+                    if state == "unknown":
+                        continue
+                    fetch = _Started(h.obj.__anext__())
+                    closed_ok = None
+                    if fetch.suspended:
+                        # the fetch is parked inside the underlying iterator: now "another task" closes the handle
+                        try:
+                            await h.obj.aclose()
+                            closed_ok = True
+                        except RuntimeError:
+                            closed_ok = False  # refused while busy: the handle simply stays open
+                    await pull(h, "resume", resume=fetch, state=state)
+                    if closed_ok:
+                        h.state = "closed"
                 elif name == "asend":
                     if hasattr(h.obj, "asend"):
                         await pull(h, "asend")
@@ -360,13 +392,46 @@ class _Stop(Exception):
     pass
 
 
+class _Started:
+    """an awaitable that was already driven up to its first suspension (or to completion)"""
+
+    def __init__(self, awaitable):
+        self.it = awaitable.__await__()
+        self.suspended = False
+        self.result = None
+        try:
+            self.pending = self.it.send(None)
+            self.suspended = True
+        except StopIteration as exc:
+            self.result = ("return", exc.value)
+        except BaseException as exc:  # noqa: B902
+            self.result = ("raise", exc)
+
+    def __await__(self):
+        if self.result is None:
+            pending = self.pending
+            while True:
+                reply = yield pending  # hand the parked suspension on to the driver, pass its answer back
+                try:
+                    pending = self.it.send(reply)
+                except StopIteration as exc:
+                    self.result = ("return", exc.value)
+                    break
+                except BaseException as exc:  # noqa: B902
+                    self.result = ("raise", exc)
+                    break
+        if self.result[0] == "raise":
+            raise self.result[1]
+        return self.result[1]
+
+
 _END = object()
 
 
 def nontrivial(case):
     ops = case["ops"]
-    closes = [i for i, o in enumerate(ops) if o[0] in ("close", "close-iter")]
-    if closes and any(o[0] in ("next", "next-u") for o in ops[closes[0] + 1:]):
+    closes = [i for i, o in enumerate(ops) if o[0] in ("close", "close-iter", "close-during-fetch")]
+    if closes and any(o[0] in ("next", "next-u", "next-captured") for o in ops[closes[0] + 1:]):
         return True
     return any(o[0] == "tool" and o[4] >= 1 for o in ops) and len(case["items"]) >= 2
 
